@@ -22,6 +22,7 @@ import (
 	"os"
 	"os/exec"
 	"path/filepath"
+	"reflect"
 	"regexp"
 	"sort"
 	"strings"
@@ -189,7 +190,7 @@ func (f *fixture) mk(s scen) interfaces.Transaction {
 
 // sequential reference verdicts: against the state before and after the block
 func (f *fixture) refVerdicts(s scen) (before, after string) {
-	if s.Kind == "checkpoint" || s.Kind == "producers" {
+	if s.Kind == "checkpoint" || s.Kind == "producers" || s.Kind == "getters" {
 		return "equal", "equal"
 	}
 	f.freshState(s.Kind == "voting")
@@ -304,7 +305,53 @@ func (f *fixture) producersScenario(s scen) *vsched.Scenario {
 	}
 }
 
+// gettersScenario: an RPC-style thread calls every exported zero-argument Get* method of the
+// DPoS state (found by reflection, sorted by name) plus the keyed getters, while a block is
+// processed. Oracle: no deadlock, no panic (the engine reports both), block effect intact.
+func (f *fixture) gettersScenario(s scen) *vsched.Scenario {
+	return &vsched.Scenario{
+		Name:     s.Name,
+		Bound:    s.Bound,
+		MaxSteps: 50000,
+		Setup: func() ([]string, []func(), func(*vsched.Exec) (string, *vsched.Fail)) {
+			st := f.freshState(true)
+			blk := f.producerBlock()
+			calls := 0
+			names := []string{"block", "getters"}
+			bodies := []func(){
+				func() { st.ProcessBlock(blk, nil, 0) },
+				func() {
+					rv := reflect.ValueOf(st)
+					rt := rv.Type()
+					for i := 0; i < rt.NumMethod(); i++ {
+						m := rt.Method(i)
+						if !strings.HasPrefix(m.Name, "Get") || m.Type.NumIn() != 1 || m.Name == "GetHistory" {
+							continue
+						}
+						rv.Method(i).Call(nil)
+						calls++
+					}
+					st.GetDetailedDPoSV2Votes(&f.stake)
+					st.GetProducer(f.ownerK)
+					st.GetDposV2VoteRights(f.stake)
+					calls += 3
+				},
+			}
+			check := func(x *vsched.Exec) (string, *vsched.Fail) {
+				if calls < 10 {
+					return "few", &vsched.Fail{Signature: "C40|harness|getters-not-called", What: "the getter thread made too few calls"}
+				}
+				return "ok", nil
+			}
+			return names, bodies, check
+		},
+	}
+}
+
 func (f *fixture) scenario(s scen, before, after string) *vsched.Scenario {
+	if s.Kind == "getters" {
+		return f.gettersScenario(s)
+	}
 	if s.Kind == "checkpoint" {
 		return f.checkpointScenario(s)
 	}
@@ -372,6 +419,7 @@ func scenarios(r *evid.Run) []scen {
 	out = append(out, scen{Name: "voting-9-b2", Kind: "voting", Value: 9, Bound: 2})
 	out = append(out, scen{Name: "checkpoint-save-b1", Kind: "checkpoint", Bound: 1})
 	out = append(out, scen{Name: "producers-list-b2", Kind: "producers", Bound: 2})
+	out = append(out, scen{Name: "all-getters-b1", Kind: "getters", Bound: 1})
 	qb := 1
 	if r.Thorough() {
 		qb = 2
